@@ -22,7 +22,7 @@ class Operator(Token):
     # http://office.microsoft.com/en-us/excel-help/calculation-operators-and-
     # precedence-HP010078886.aspx
     _precedences = {
-        ':': 8, ' ': 8, ',': 8, 'u-': 7, 'u+': 7, '%': 6, '^': 5, '*': 4,
+        ':': 8.6, ' ': 8.3, ',': 8, 'u-': 7, 'u+': 7, '%': 6, '^': 5, '*': 4,
         '/': 4, '+': 3, '-': 3, '&': 2, '=': 1, '<': 1, '>': 1, '<=': 1,
         '>=': 1, '<>': 1
     }
